@@ -1,5 +1,6 @@
 """C17 workload: load / serialise histories over shared description objects and the simulated
 file device, judged by the independent element model and the document-store model (O5), O2, O3."""
+import copy
 from .seed import Streams
 from .canon import enc
 from . import gen_common as G
@@ -22,6 +23,7 @@ def plan(seed, overrides=None):
         "fault_mode": rc.choice(["none", "none", "io", "io", "interrupt", "mixed"]),
         "buffer_size": rc.choice([1, 2, 3, 5, 7, 16, 64, 512, 8192]),
         "formats": rc.choice([["json"], ["yaml"], ["json", "yaml", "yml"]]),
+        "mtime_mode": rc.choice(["fine", "fine", "coarse", "frozen"]),
     }
     if overrides:
         cfg.update(overrides)
@@ -32,6 +34,11 @@ def plan(seed, overrides=None):
         recipes[f"desc{i}"] = G.gen_net_description(rr, degenerate=rr.random() < cfg["degenerate_rate"])
         recipes[f"cdesc{i}"] = G.gen_cir_description(rr, degenerate=rr.random() < cfg["degenerate_rate"])
         recipes[f"doc{i}"] = G.gen_document_recipe(rr, python_form=True)
+        # a twin that serialises to exactly the same number of bytes (only one digit differs)
+        recipes[f"doc{i}"]["v"]["n"] = 1
+        twin = copy.deepcopy(recipes[f"doc{i}"])
+        twin["v"]["n"] = 2
+        recipes[f"doc{i}t"] = twin
         recipes[f"ndoc{i}"] = G.gen_document_recipe(rr, python_form=False)
         z = G.cx(rr) * rr.choice([1, 10, 0.01])
         n = G.notation(rr, z)
@@ -125,10 +132,13 @@ def _script(r, client, world, counter):
             if k == "dump_load":
                 add("ld.dump", {"path": path, "doc": P(f"doc{i}")})
                 add("ld.load", {"path": path})
+                if r.random() < 0.4:      # overwrite with a same-size twin and load again (defeats (mtime, size) caches)
+                    add("ld.dump", {"path": path, "doc": P(f"doc{i}t")})
+                    add("ld.load", {"path": path})
             elif k == "load":
                 add("ld.load", {"path": path})
             elif k == "dump":
-                add("ld.dump", {"path": path, "doc": P(f"doc{r.randrange(world['nd'])}")})
+                add("ld.dump", {"path": path, "doc": P(f"doc{r.randrange(world['nd'])}" + r.choice(["", "t"]))})
             else:
                 p = r.choice(["f", "a"]) + ".json"
                 add("fs.put", {"path": p, "doc": P(f"ndoc{i}"), "ascii": r.random() < 0.5, "indent": r.choice([None, 1, 4])})
